@@ -75,6 +75,7 @@ type input struct {
 	IgnoreHost  bool      `json:"ignorehost"` // parser configuration, as an operator can set it
 	Namespace   string    `json:"namespace"`
 	EstTags     int       `json:"esttags"`
+	StaticTags  []string  `json:"statictags"` // TagHandler: tags added to every metric (default: none)
 	CopyMicros  int       `json:"copyus"` // > 0: the backend is slow: it reads the map it is handed this long after the call (still inside SendMetricsAsync)
 	Sched       uint64    `json:"sched"`
 	Batches     [][]dgram `json:"batches"`
